@@ -5,6 +5,7 @@ go 1.24.7
 require (
 	github.com/gopher-fleece/gleece/v2 v2.0.0
 	github.com/gopher-fleece/runtime v1.2.1
+	github.com/titanous/json5 v1.0.0
 	pgregory.net/rapid v1.3.0
 )
 
@@ -37,7 +38,6 @@ require (
 	github.com/santhosh-tekuri/jsonschema/v6 v6.0.2 // indirect
 	github.com/spf13/cobra v1.10.2 // indirect
 	github.com/spf13/pflag v1.0.10 // indirect
-	github.com/titanous/json5 v1.0.0 // indirect
 	github.com/woodsbury/decimal128 v1.4.0 // indirect
 	go.yaml.in/yaml/v4 v4.0.0-rc.3 // indirect
 	golang.org/x/crypto v0.45.0 // indirect
